@@ -263,7 +263,34 @@ class Machine:
             out["ntasks"] = len(g)
         elif kind == "compute":
             x = self.pool[var]
-            out["value"] = self.compute(x, ev)
+            entry = ev.get("entry", "method")
+            if entry == "method":
+                out["value"] = self.compute(x, ev)
+            elif entry == "dask1":
+                sim = self.sim(ev, self.all_values is not None)
+                with warnings.catch_warnings():
+                    warnings.simplefilter("ignore")
+                    (out["value"],) = dask.compute(x, scheduler=sim)
+                self.stats["steps"] = self.stats.get("steps", 0) + sim.steps
+                self.last_sim = sim
+            elif entry == "delayed":
+                sim = self.sim(ev, self.all_values is not None)
+                d = x.to_delayed(optimize_graph=ev.get("og", True))
+                flat = list(d.ravel()) if d.ndim else [d.item()]
+                with warnings.catch_warnings():
+                    warnings.simplefilter("ignore")
+                    blocks = dask.compute(*flat, scheduler=sim)
+                self.stats["steps"] = self.stats.get("steps", 0) + sim.steps
+                self.last_sim = sim
+                out["blocks"] = (d.shape, blocks)
+            else:
+                raise HarnessError(f"unknown entry {entry}")
+        elif kind == "doptimize":
+            x = self.pool[var]
+            (y,) = dask.optimize(x)
+            self.pool[ev["out"]] = y
+            self.origin[ev["out"]] = self.origin.get(var)
+            out["y"] = y
         elif kind == "compute_many":
             vs = [v for v in ev["vars"] if v in self.pool]
             sim = self.sim(ev, self.all_values is not None)
